@@ -55,6 +55,18 @@ fn verif_replay_c20() {
     let inp: serde_json::Value = serde_json::from_str(&std::fs::read_to_string(std::env::var("VERIF_REPLAY_IN").unwrap()).unwrap()).unwrap();
     if mode == "replay" {
         let w = &inp["input"];
+        if w["kind"] == "two dumps" {
+            let dir = std::env::temp_dir().join(format!("verif_c20b_{}", std::process::id()));
+            let _ = std::fs::create_dir_all(&dir);
+            let long = SetSketchParams::new(1.123456789012345, 4096, 20.000000001, 65534);
+            let short = SetSketchParams::new(1.5, 2, 2.0, 3);
+            let _ = long.dump_json(&dir); let _ = short.dump_json(&dir);
+            let d = dir.clone();
+            let r = quiet(move || SetSketchParams::reload_json(&d));
+            let _ = std::fs::remove_dir_all(&dir);
+            if matches!(&r, Some(Ok(p)) if same(p, &short)) { out(false, w.clone(), "second dump reloaded".into(), "".into(), 1) } else { out(true, w.clone(), "second (shorter) dump is not what reload_json returns".into(), "Ok(second parameters)".into(), 1) }
+            return;
+        }
         let cut = if w["cut"].is_null() { None } else if w["cut"] == "missing" { Some(usize::MAX) } else { Some(w["cut"].as_u64().unwrap() as usize) };
         match case(w["b"].as_f64().unwrap(), w["m"].as_u64().unwrap(), w["a"].as_f64().unwrap(), w["q"].as_u64().unwrap(), cut) {
             Some((o, e)) => out(true, w.clone(), o, e, 1),
@@ -63,6 +75,25 @@ fn verif_replay_c20() {
         return;
     }
     let mut cases = 0u64;
+    // a second, shorter dump into the same directory must replace the first one completely
+    {
+        let dir = std::env::temp_dir().join(format!("verif_c20b_{}", std::process::id()));
+        let _ = std::fs::create_dir_all(&dir);
+        let long = SetSketchParams::new(1.123456789012345, 4096, 20.000000001, 65534);
+        let short = SetSketchParams::new(1.5, 2, 2.0, 3);
+        cases += 1;
+        let ok = long.dump_json(&dir).is_ok() && short.dump_json(&dir).is_ok();
+        let d = dir.clone();
+        let r = quiet(move || SetSketchParams::reload_json(&d));
+        let content = std::fs::read_to_string(dir.join("parameters.json")).unwrap_or_default();
+        let _ = std::fs::remove_dir_all(&dir);
+        let good = ok && matches!(&r, Some(Ok(p)) if same(p, &short));
+        if !good {
+            out(true, serde_json::json!({"kind": "two dumps", "first": "b=1.123456789012345 m=4096 a=20.000000001 q=65534", "second": "b=1.5 m=2 a=2 q=3"}),
+                format!("after a long dump followed by a shorter one the file holds {:?} and reload_json gives {:?}", content, r.map(|x| x.map(|p| format!("{:?}", p)))), "Ok(second parameters)".into(), cases);
+            return;
+        }
+    }
     let params = [(1.001f64, 4096u64, 20.0f64, 65534u64), (1.5, 1, 1.0, 0), (1.123456789012345, u64::MAX, 0.000123456789012345, u64::MAX), (2.0, 17, 1e300, 3), (1.0000000001, 1 << 40, 123456.789, 255)];
     for &(b, m, a, q) in &params {
         cases += 1;
